@@ -9,11 +9,14 @@ from vlib.coqfmt import cfloat, cnat, cQ, clist, cpair
 
 ENV_BY_TIER = {"quick": {"NUMBA_DISABLE_JIT": "1"}, "thorough": {}}
 
-RULE = ("star-like tree sequences built directly as tables: 2-8 samples at time 0, 1-4 trees, each tree a "
+RULE = ("star-like tree sequences built directly as tables (40% decorated by gen.exotic: all nodes renumbered, "
+        "extra flag bits, mutations above the parents = on no edge, mutation-free sites, allele states, populations, "
+        "unknown mutation times): 2-8 samples at time 0, 1-4 trees, each tree a "
         "subset (>= 2) of the samples under one non-sample parent (a parent may span several trees), skewed "
         "per-sample mutation counts (0..hundreds) x mutation_rate x max_shape (2..1e4, so both uncapped and "
         "capped) x min_step x 1-10 iterations; run (a) by ExpectationPropagation.iterate directly and (b) through "
-        "tsdate.date(variational_gamma, regularise_roots=False, rescaling_intervals=0). Non-trivial when there is "
+        "tsdate.date(variational_gamma, regularise_roots=False, rescaling off by intervals=0 or by iterations=0, numpy-typed "
+        "option scalars on 30%, max_shape up to inf). Non-trivial when there is "
         "at least one mutation; distinct by content hash")
 ASSUME = ["finiteness tests of _valid_gamma/_valid_moments are not modelled (finite inputs only)",
           "the float model reproduces the operation order of rootward_moments/approximate_gamma_mom; compared at "
@@ -23,13 +26,18 @@ RTOL = 1e-12
 
 def make_case(rng, capped=None):
     ts = E.star_ts2(rng)
+    # valid-but-unusual decorations (node renumbering: samples are no longer ids 0..n-1; mutations above
+    # the parents, which sit on no edge and must not be counted; flag bits; empty sites; states; populations)
+    ts, applied = E.decorate(rng, ts)
     capped = rng.random() < 0.35 if capped is None else capped
-    return {"ts": gen.ts_tables_dict(ts), "kind": "star",
+    return {"ts": E.ts_dict(E.ts_of(E.ts_dict(ts))), "kind": "star", "exotic": applied,
             "opts": {"mutation_rate": rng.choice([1e-3, 1e-2, 0.1, 1.0, 0.37]),
                      "singletons_phased": True,
-                     "max_shape": rng.choice([2.0, 5.0, 20.0]) if capped else rng.choice([1000.0, 1e4]),
+                     "max_shape": rng.choice([2.0, 5.0, 20.0]) if capped else rng.choice([1000.0, 1e4, float("inf")]),
                      "min_step": rng.choice([0.1, 0.1, 0.5, 0.01, 0.9]),
                      "regularise": False,
+                     "np_types": rng.random() < 0.3,
+                     "no_rescale": rng.choice(["intervals", "iterations"]),
                      "iterations": rng.choice([1, 1, 2, 3, 10])}}
 
 
@@ -50,9 +58,15 @@ def run_date(case):
     import tsdate
     ts = E.case_ts(case)
     o = case["opts"]
-    _d, fit = tsdate.date(ts, mutation_rate=o["mutation_rate"], method="variational_gamma",
-                          max_iterations=o["iterations"], max_shape=o["max_shape"], regularise_roots=False,
-                          rescaling_intervals=0, singletons_phased=True, return_fit=True, progress=False)
+    f = (lambda x: np.float64(x)) if o.get("np_types") else (lambda x: x)
+    i = (lambda x: np.int64(x)) if o.get("np_types") else (lambda x: x)
+    b = (lambda x: np.bool_(x)) if o.get("np_types") else (lambda x: x)
+    # "without rescaling": either count exactly 0
+    resc = dict(rescaling_intervals=i(0)) if o.get("no_rescale", "intervals") == "intervals" \
+        else dict(rescaling_intervals=i(7), rescaling_iterations=i(0))
+    _d, fit = tsdate.date(ts, mutation_rate=f(o["mutation_rate"]), method="variational_gamma",
+                          max_iterations=i(o["iterations"]), max_shape=f(o["max_shape"]), regularise_roots=b(False),
+                          singletons_phased=b(True), return_fit=True, progress=False, **resc)
     return fit
 
 
@@ -104,6 +118,8 @@ def model_terms(case, static):
     # exact instance: a free node's upper bound (inf) is replaced by lower + 1 (only == is used)
     cons = clist(static["constraints"],
                  lambda c: cpair(qfrac(c[0]), qfrac(c[1]) if np.isfinite(c[1]) else qfrac(c[0] + 1)))
+    if not np.isfinite(o["max_shape"]):
+        return fl, None
     q = ("option_map (map (fun v : Q * Q => (Qnum (fst v), Zpos (Qden (fst v)), Qnum (snd v), Zpos (Qden (snd v))))) "
          "(run_conj QNum (1 # 1000000000000) (1000000000000 # 1) %s %s %s %s %s %s)") % (
         edges, cons, clist(static["elik"], lambda v: cpair(qfrac(v[0]), qfrac(v[1]))),
@@ -119,7 +135,7 @@ def qval(x):
 
 def correspondence(ctx, items):
     """items: (case, static, post).  Float model at 1e-12 (bit-exactness is tallied), exact
-    rational model at 1e-12 (only uncapped or <= 2 iterations: capped denominators explode)"""
+    rational model at 1e-12 (uncapped, or capped with one iteration and <= 10 edges: capped denominators explode)"""
     chunk = 10
     for k0 in range(0, len(items), chunk):
         part = items[k0:k0 + chunk]
@@ -127,7 +143,9 @@ def correspondence(ctx, items):
         useq = []
         for j, (c, s, post) in enumerate(part):
             fl, q = model_terms(c, s)
-            doq = c["opts"]["iterations"] <= 2 or c["opts"]["max_shape"] >= 1000
+            # exact rationals: uncapped runs stay small; capped ones explode (denominators grow with every visit)
+            doq = np.isfinite(c["opts"]["max_shape"]) and (
+                c["opts"]["max_shape"] >= 1000 or (c["opts"]["iterations"] <= 1 and len(s["edges"]) <= 10))
             useq.append(doq)
             body += "Eval vm_compute in (%s).\n" % fl
             if doq:
@@ -165,7 +183,9 @@ def run(ctx, model_ok=True):
         r = run_direct(c)
         ts = c["ts"]
         desc = {"samples": sum(1 for f in ts["nodes_flags"] if f & 1), "edges": len(ts["edges"]),
-                "mutations": len(ts["mutations"]), "opts": c["opts"]}
+                "mutations": len(ts["mutations"]), "opts": c["opts"], "exotic": c.get("exotic", [])}
+        for k in c.get("exotic", []):
+            ctx.tally("exotic-" + k)
         if isinstance(r, str):
             ctx.case(desc, nontrivial=False, kind="direct/" + r)
             ctx.oracle_fail("assertion:direct", "iterate() raised AssertionError on a star input", {"case": c, "how": "direct"})
